@@ -37,7 +37,7 @@ pub static PROP: Prop = Prop {
         "reading: with a strict majority for x among the used sources the indicator in force after the update must be x (not merely 'if announced then x')",
     ],
     profiles: Profiles::Strict,
-    cases: |t| t.pick(60_000, 1_200_000),
+    cases: |t| t.pick(200_000, 4_000_000),
     budget_s: |t| t.pick(40, 300),
     run,
     min_nontrivial: 300,
